@@ -500,3 +500,15 @@ _RULE_ADDENDA_8 = {
 }
 for _k, _v in _RULE_ADDENDA_8.items():
     PROPS[_k]["rule"] += _v
+
+# ... and after the ninth (half) round
+_RULE_ADDENDA_9 = {
+    "C02": " Run concurrent: four goroutines apply partial updates adding different items to one function at the same moment; the list holds all of them afterwards.",
+    "C05": " The mutator also leaves lists present but empty; the add notification may carry an odd (empty, very deep) address of the new entity.",
+    "C06": " Complete notifications may leave entity [0] out (down to an empty list); the feature information list comes in any order in a third of the messages.",
+    "C11": " Origin local-mirror: a watched data set is handed in as the new data of a local partial update. Use case entries of the peer may lack the device part.",
+    "C15": " Bus histories and handler scripts (un)subscribe on the core level too (build-tag hook; 1 in 3), the core level subscription of an object being judged as a subscriber of its own (delivery = on the publishing goroutine); in the levels run core level handlers (un)subscribe (level, handler) pairs from inside Publish - touched pairs 0 or 1 delivery, all others exactly the subscriptions in force.",
+    "C18": " In half of the cells commands with filters were built from the same function object before the command under test.",
+}
+for _k, _v in _RULE_ADDENDA_9.items():
+    PROPS[_k]["rule"] += _v
